@@ -218,6 +218,16 @@ def r3_r5_resolvers(ctx, sym, ids=('R3', 'R5'), writers=True, model=None):
                     'unmuting' if first_muted else 'muting')) + (str(got[1:]) if isinstance(got, tuple) else
                                                                  '%r correct=%r' % (got.get('label'), got.get('correct'))),
                                   '%r correct=%r' % (want['label'], want['correct'])))
+        # asked about a report by keyword (a batch grader's own report), the resolver answers for that report
+        for plain in (True,):
+            cfgs3 = [dict(category='runtime', label='A', triggered=True, correct=False)]
+            n += 1
+            got = model.run_driver(fn, cfgs3, [1], with_ignored, plain=plain, keyword=True)
+            want = model.oracle(cfgs3)
+            if isinstance(got, tuple) or got.get('label') != want['label'] or got.get('correct') != want['correct']:
+                merge_bad.append((cfgs3, [1], 'resolve(report=r): ' + (str(got[1:]) if isinstance(got, tuple) else
+                                                                        '%r correct=%r' % (got.get('label'), got.get('correct'))),
+                                  '%r correct=%r' % (want['label'], want['correct'])))
         ctx.floor(R3, 'driver reports (%s)' % tag, n, 100)
 
         def show(item):
